@@ -1,4 +1,4 @@
-import GqlProofs.NormalizeLti
+import GqlProofs.NormalizeKey
 /-! C06 (normaliser): `tryExtract` / `normArgs` keep every argument value, synthetic names are fresh and pairwise
 distinct, the walk only replaces argument values (shape preserved). -/
 set_option linter.unusedSimpArgs false
@@ -62,17 +62,11 @@ def NamesOK (st : NState) : Prop :=
 
 def EntriesOK (s : Schema) (es : List Entry) : Prop :=
   ∀ e ∈ es, hasVars e.lit = false ∧ canonInts e.lit = true ∧ isValidLiteralValue s e.type (some e.lit) = true ∧
-    isInputType s e.type = true
+    isInputType s e.type = true ∧ Reader.WFValue e.lit ∧ Reader.WFType (typeRefOf e.type)
 
 /-- the variable map of the normalised request gives every synthetic variable the coerced client form of its literal -/
 def Realises (s : Schema) (vars' : Vars) (es : List Entry) : Prop :=
   ∀ e ∈ es, lookupD vars' e.name = coerceValue s e.type (lti e.lit)
-
-/-- Equal `byLiteral` keys stand for the same type and literals that evaluate alike. Follows from the printer
-round trip of C08 (equal printed text ⇒ equal values up to locations) and injectivity of type rendering for
-well-formed type names; NOT proved here (hypothesis of the transparency theorems). -/
-def KeySound (s : Schema) : Prop :=
-  ∀ t v t' v', litKey t v = litKey t' v' → t = t' ∧ ∀ vars, valueFromAST s t (some v) vars = valueFromAST s t' (some v') vars
 
 theorem valueFromAST_var (s : Schema) (t : GType) (x : String) (loc : Loc) (vars : Vars) :
     valueFromAST s t (some (.var x loc)) vars = lookupD vars x := by
@@ -80,10 +74,11 @@ theorem valueFromAST_var (s : Schema) (t : GType) (x : String) (loc : Loc) (vars
   simp only [optLitDepth, litDepth, iter]
   cases t <;> simp [fromASTStep]
 
-/-- premise on an argument literal about to be normalised: its Int tokens have the lexer's shape. (Validity for the
-type is NOT a premise any more: `tryExtract` checks it before extracting, 4210b3d.) -/
+/-- premise on an argument literal about to be normalised: it is a well-formed value (names are GraphQL names, number
+tokens have the lexer's shape — what the parser produces) at a position whose type is well-formed. (Validity for the
+type is NOT a premise: `tryExtract` checks it before extracting, 4210b3d.) -/
 def LitOK (s : Schema) (t : GType) (v : Value) : Prop :=
-  hasVars v = false → canonInts v = true
+  Reader.WFValue v ∧ Reader.WFType (typeRefOf t)
 
 theorem tryExtract_entries (s : Schema) (st : NState) (v : Value) (t : GType) :
     (∃ es, (tryExtract s st v t).2.entries = st.entries ++ es) ∧ (tryExtract s st v t).2.taken = st.taken := by
@@ -117,7 +112,7 @@ theorem tryExtract_entriesOK (s : Schema) (st : NState) (v : Value) (t : GType)
           · exact h e he
           · simp only [List.mem_singleton] at he; subst he
             have hv' : hasVars v = false := by simpa using hv
-            exact ⟨hv', hl hv', by simpa using hval, hit⟩
+            exact ⟨hv', canonInts_of_wf v hl.1, by simpa using hval, hit, hl.1, hl.2⟩
 
 theorem tryExtract_namesOK (s : Schema) (st : NState) (v : Value) (t : GType) (h : NamesOK st) :
     NamesOK (tryExtract s st v t).2 := by
@@ -152,7 +147,7 @@ theorem tryExtract_namesOK (s : Schema) (st : NState) (v : Value) (t : GType) (h
 
 /-- **one extraction is transparent**: under the final variable map the (possibly replaced) value evaluates to what
 the original literal evaluates to under the request's own variables -/
-theorem tryExtract_transparent (s : Schema) (hcc : customLti s) (hks : KeySound s)
+theorem tryExtract_transparent (s : Schema) (hcc : customLti s)
     (st : NState) (v : Value) (t : GType) (vars vars' : Vars)
     (hes : EntriesOK s st.entries) (hl : LitOK s t v)
     (hre : Realises s vars' (tryExtract s st v t).2.entries)
@@ -177,18 +172,18 @@ theorem tryExtract_transparent (s : Schema) (hcc : customLti s) (hks : KeySound 
         simp only [hfind] at hre ⊢
         have hmem := List.mem_of_find?_eq_some hfind
         have hkey : litKey e.type e.lit = litKey t v := by simpa using List.find?_some hfind
-        obtain ⟨ht, hval⟩ := hks _ _ _ _ hkey
-        obtain ⟨h1, h2, h3, _⟩ := hes e hmem
+        obtain ⟨h1, h2, h3, _, h5, h6⟩ := hes e hmem
+        obtain ⟨ht, hval⟩ := litKey_sound s e.type t e.lit v h6 hl.2 h5 hl.1 hkey
         rw [valueFromAST_var, hre e hmem, (lti_agree s hcc e.type e.lit vars h1 h2 h3).2, hval vars]
       | none =>
         simp only [hfind] at hre ⊢
         rw [valueFromAST_var, hre ⟨_, t, v⟩ (by simp)]
-        exact (lti_agree s hcc t v vars hv' (hl hv') hval).2
+        exact (lti_agree s hcc t v vars hv' (canonInts_of_wf v hl.1) hval).2
 
 /-! ## the argument list of one field -/
 
-/-- premises on the argument list of a field with argument definitions `defs`: lexer-shaped Int tokens; the
-argument's declared type is an input type (schema construction guarantees it, C11) -/
+/-- premises on the argument list of a field with argument definitions `defs`: well-formed values; the argument's
+declared type is a (well-formed) input type (schema construction guarantees it, C11) -/
 def ArgsOK (s : Schema) (defs : List ArgDef) (as : List Argument) : Prop :=
   ∀ a ∈ as, ∀ d, defs.find? (fun d => d.name == a.name.value) = some d →
     LitOK s d.type a.value ∧ isInputType s d.type = true
@@ -266,7 +261,7 @@ theorem argLookup_isSome_of_names {as bs : List Argument} (h : as.map (·.name) 
 
 /-- per argument name that has a definition: the normalised argument evaluates, under the final variable map, to
 what the original argument evaluates to under the request's variables -/
-theorem normArgs_lookup (s : Schema) (hcc : customLti s) (hks : KeySound s) (defs : List ArgDef) (vars vars' : Vars) :
+theorem normArgs_lookup (s : Schema) (hcc : customLti s) (defs : List ArgDef) (vars vars' : Vars) :
     ∀ (as : List Argument) (st : NState), EntriesOK s st.entries → ArgsOK s defs as → UserOK s vars vars' as →
       Realises s vars' (normArgs s defs as st).2.entries →
       ∀ k d, defs.find? (fun d => d.name == k) = some d →
@@ -332,7 +327,7 @@ theorem normArgs_lookup (s : Schema) (hcc : customLti s) (hks : KeySound s) (def
             obtain ⟨es, hes2⟩ := (normArgs_entries s defs as (tryExtract s st a.value da.type).2).1
             have hre1 : Realises s vars' (tryExtract s st a.value da.type).2.entries := by
               rw [hes2] at hre; exact realises_prefix hre
-            exact tryExtract_transparent s hcc hks st a.value da.type vars vars' hes
+            exact tryExtract_transparent s hcc st a.value da.type vars vars' hes
               (ha a List.mem_cons_self da (by rw [hkk]; exact hfd)).1 hre1
               (fun hv => hu a List.mem_cons_self hv da.type)
           · simp only [hk, Bool.false_eq_true, if_false]
@@ -538,5 +533,69 @@ theorem userOK_of_agree (s : Schema) (vars vars' : Vars) (as : List Argument)
   apply h
   simp only [argsVars, List.mem_flatMap]
   exact ⟨a, ha, hx⟩
+
+/-! ## entries only grow along the walk; the per-field transparency theorem in the form the end-to-end proof uses -/
+
+mutual
+theorem normSel_entries_ext (s : Schema) : ∀ (x : Selection) (P : String) (st : NState),
+    ∃ es, (normSel s P x st).2.entries = st.entries ++ es
+  | .field al nm args dirs sel loc, P, st => by
+    cases hfd : fieldDefN s P nm.value with
+    | none => simp only [normSel, hfd]; exact ⟨[], by simp⟩
+    | some fd =>
+      obtain ⟨⟨esA, hA⟩, _, _⟩ := normArgs_entries s fd.args args st
+      by_cases ho : s.isObject fd.type.namedName = true
+      · simp only [normSel, hfd, ho, if_true]
+        obtain ⟨esO, hO⟩ := normOpt_entries_ext s sel fd.type.namedName (normArgs s fd.args args st).2
+        exact ⟨esA ++ esO, by rw [hO, hA, List.append_assoc]⟩
+      · simp only [normSel, hfd, ho, Bool.false_eq_true, if_false]; exact ⟨esA, hA⟩
+  | .inline tc dirs ss loc, P, st => by
+    simp only [normSel]; exact normSet_entries_ext s ss _ st
+  | .spread n d l, P, st => ⟨[], by simp [normSel]⟩
+theorem normOpt_entries_ext (s : Schema) : ∀ (x : Option SelectionSet) (P : String) (st : NState),
+    ∃ es, (normOpt s P x st).2.entries = st.entries ++ es
+  | none, P, st => ⟨[], by simp [normOpt]⟩
+  | some ss, P, st => by simp only [normOpt]; exact normSet_entries_ext s ss P st
+theorem normSet_entries_ext (s : Schema) : ∀ (x : SelectionSet) (P : String) (st : NState),
+    ∃ es, (normSet s P x st).2.entries = st.entries ++ es
+  | .mk sels loc, P, st => by simp only [normSet]; exact normList_entries_ext s sels P st
+theorem normList_entries_ext (s : Schema) : ∀ (xs : List Selection) (P : String) (st : NState),
+    ∃ es, (normList s P xs st).2.entries = st.entries ++ es
+  | [], P, st => ⟨[], by simp [normList]⟩
+  | x :: xs, P, st => by
+    simp only [normList]
+    obtain ⟨e1, h1⟩ := normSel_entries_ext s x P st
+    obtain ⟨e2, h2⟩ := normList_entries_ext s xs P (normSel s P x st).2
+    exact ⟨e1 ++ e2, by rw [h2, h1, List.append_assoc]⟩
+end
+
+theorem find_of_nodup (defs : List ArgDef) (hnd : (defs.map (·.name)).Nodup) (d : ArgDef) (hd : d ∈ defs) :
+    defs.find? (fun d' => d'.name == d.name) = some d := by
+  induction defs with
+  | nil => cases hd
+  | cons x xs ih =>
+    simp only [List.map_cons, List.nodup_cons] at hnd
+    rcases List.mem_cons.mp hd with rfl | hd'
+    · simp [List.find?]
+    · have hne : (x.name == d.name) = false := by
+        simp only [beq_eq_false_iff_ne, ne_eq]
+        intro e; exact hnd.1 (e ▸ List.mem_map.mpr ⟨d, hd', rfl⟩)
+      simp only [List.find?, hne]
+      exact ih hnd.2 hd'
+
+/-- per field: the normalised argument list under `vars'` gives the resolver the argument map the original gives under `vars` -/
+theorem normalize_args_transparent_core (s : Schema) (hcc : customLti s)
+    (defs : List ArgDef) (hnd : (defs.map (·.name)).Nodup) (as : List Argument) (st : NState) (vars vars' : Vars)
+    (hes : EntriesOK s st.entries) (ha : ArgsOK s defs as)
+    (hagree : ∀ x ∈ argsVars as, lookupD vars' x = lookupD vars x)
+    (hre : Realises s vars' (normArgs s defs as st).2.entries) :
+    getArgumentValues s defs (normArgs s defs as st).1 vars' = getArgumentValues s defs as vars := by
+  unfold getArgumentValues
+  congr 1
+  apply filterMap_congr'
+  intro d hd
+  simp only [argEntry]
+  rw [normArgs_lookup s hcc defs vars vars' as st hes ha (userOK_of_agree s vars vars' as hagree) hre d.name d
+    (find_of_nodup defs hnd d hd)]
 
 end GqlModel.Normalize
